@@ -1,5 +1,5 @@
 '''C06 - Bonferroni and Holm-Bonferroni.'''
-from ..rules import stats
+from ..rules import stats, patterns
 from ..variants import stats as _v
 
 ID = 'C06'
@@ -29,7 +29,13 @@ ASSUMPTIONS = ['numpy comparison semantics for NaN', 'np.argsort returns a '
 def check(ctx):
     ctx.run(stats.check_bonferroni)
     ctx.run(stats.check_nan_mask, (stats.BON, stats.STU))
+    ctx.run(patterns.check_patterns, ID)
+
+
+def _variants(program):
+    return _v.variants(program, ID)
 
 
 def variants(program):
-    return _v.variants(program, ID)
+    from ..variants import patterns as _pv
+    return list(_variants(program)) + _pv.variants(program, ID)
